@@ -99,6 +99,9 @@ static void finish(void) {
 	VP_WITNESS(last_op != Q_REBUILD, "a history ending in destroy + default-construct runs to the end");
 	l_dtor(&Lq);
 	vp_end();
+#ifdef __CPROVER__
+	__CPROVER_assume(0);      /* this history is complete: drop its state instead of merging it with the other cases at the function exits */
+#endif
 }
 #define DONE do { check_all(); nops++; run(depth + 1); return; } while(0)
 static void run(int depth) {
